@@ -224,7 +224,7 @@ class Verifier:
             return
         # normal outcome: every `raises X iff cond` clause must have a false cond; every post must hold
         for k, cond_fn in c.raises.items():
-            if cond_fn and not cond_fn.startswith("may_") and (self._only is None or f"raises-{k}" in self._only):
+            if cond_fn and not cond_fn.startswith(("may_", "onlyif_")) and (self._only is None or f"raises-{k}" in self._only):
                 self.check_clause(c, s, cond_fn, values, res, ob(f"raises-{k}"), negate=True,
                                   what=f"returns normally although the contract demands {k}")
         for p in c.posts:
